@@ -77,6 +77,7 @@ func MergeNodes(left, right Node, document *Document) (Node, error) {
 	}
 
 	r := DeepCopy(left, document)
+	family, _ := r.(*FamilyNode)
 
 	for _, child := range right.Nodes() {
 		for _, n := range r.Nodes() {
@@ -89,8 +90,9 @@ func MergeNodes(left, right Node, document *Document) (Node, error) {
 		}
 
 		// The child has to be copied, otherwise the result shares the node with
-		// the right input.
-		r.AddNode(DeepCopy(child, document))
+		// the right input. A husband, wife or child now belongs to the merged
+		// family.
+		r.AddNode(deepCopyInFamily(child, document, family))
 	next:
 	}
 
